@@ -38,9 +38,9 @@ CHECKS = {
    "fault points are enumerated exhaustively per sampled history (thorough: half of the budget; quick: a third), histories themselves are sampled; power-loss outcomes are enumerated up to 6 pending items and sampled beyond; the simulated disk follows the POSIX-style model of DESIGN.md 3.4; error numbers incl. ENOENT on open/rename; a fifth of the sampled histories add retention by age, an idle period and a disk-full period (every open/write fails with ENOSPC)",
    "deterministic simulation: simulated disk with crash / power-loss / errno injection, enumerated per history, old-or-new oracle over the recorded commit history"),
  "C06": ("exploration", "9.6",
-   "histories over the rich value pool (all BSON types of DESIGN.md section 8, all index option combinations) on the file store with clean restarts at seeded points: close the engine, open a new one on the same simulated disk with process-fresh globals, continue against the same model; oracle: byte dump of every namespace (documents in natural order, index name/key/unique/partial/expiry, index order, whole change log) before close vs. after open, plus enforcement probes per unique index (incl. _id) on both sides; half of the runs use second-scale retention ages with sleeps so that commits trim the change log before a restart; the reopened catalog is also compared with the reference model",
+   "histories over the rich value pool (all BSON types of DESIGN.md section 8, all index option combinations) on the file store with clean restarts at seeded points: close the engine, open a new one on the same simulated disk with process-fresh globals, continue against the same model; oracle: byte dump of every namespace (documents in natural order, index name/key/unique/partial/expiry, index order, whole change log) before close vs. after open, plus enforcement probes per unique index (incl. _id) on both sides; half of the runs use second-scale retention ages with sleeps so that commits trim the change log before a restart; a fifth of the runs let one or two commits fail in the store before anything is persisted (the call reports the error; what the engine serves afterwards must still be what the next reload returns); the reopened catalog is also compared with the reference model",
    SAMPLING + "index order is compared modulo ties",
-   "deterministic simulation: restart as a generated operation over the simulated disk, before/after byte dumps and reference model"),
+   "deterministic simulation: restart and store-error injection as generated operations over the simulated disk, before/after byte dumps and reference model"),
  "C07": ("exploration", "9.7",
    "collision-rich histories under unique / unique-partial / unique-multikey / unique-compound indexes, index builds over existing data, key shifts, restarts; invariant on every committed catalog: no two documents share a key tuple under a unique index (independent key extractor); _id is unique whether or not the catalog still lists its index; exactness: a call is rejected for uniqueness iff the model's final state would contain such a pair; disagreements owned by other properties re-base the model and the run continues",
    SAMPLING + "index keys on top-level fields, embedded-document paths and arrays of scalars",
